@@ -89,6 +89,45 @@ fn run(e: &'static Engine, workers: usize, parts: &'static [(char, &'static str)
     e.note(&out);
 }
 
+/// the main thread holds the lock when the window opens, so every participant queues up; it cancels one waiter and
+/// then unlocks: the hand-off races with the cancellation
+fn run_held(e: &'static Engine, workers: usize, parts: &'static [(char, &'static str)], cancel: usize) {
+    rt_init(workers);
+    let m = Arc::new(Mutex::new(0u32));
+    let g = m.lock().unwrap();
+    e.begin();
+    let mut hs = vec![];
+    for (k, o) in parts.iter() {
+        let m = m.clone();
+        hs.push(spawn_part(e, *k, move || ops(e, &m, o)));
+    }
+    cancel_part(&hs[cancel]);
+    drop(g);
+    let mut out = String::new();
+    for (i, h) in hs.into_iter().enumerate() {
+        match join_part(e, h) {
+            Ok(()) => out.push_str("ok "),
+            Err(true) if i == cancel => out.push_str("cancel "),
+            Err(true) => e.fail("cancel_unasked", &format!("participant {} ended with Cancel but was not cancelled", i)),
+            Err(false) => e.fail("unexpected_panic", &format!("participant {} panicked", i)),
+        }
+    }
+    if DOUBLE.load(Ordering::SeqCst) {
+        e.fail("mutual_exclusion", "two participants were inside the critical section at the same time");
+    }
+    match m.try_lock() {
+        Ok(g) => {
+            let n = ENTRIES.load(Ordering::SeqCst);
+            if *g != n {
+                e.fail("lost_update", &format!("{} critical sections ran but the protected value is {}", n, *g));
+            }
+        }
+        Err(TryLockError::WouldBlock) => e.fail("not_released", "all participants are done but try_lock() says WouldBlock: the lock was handed to a dead waiter"),
+        Err(TryLockError::Poisoned(_)) => e.fail("poisoned", "mutex poisoned although nobody panicked inside it"),
+    }
+    e.note(&out);
+}
+
 fn mk(workers: usize, parts: &'static [(char, &'static str)], main_ops: &'static str, cancel: Option<usize>) -> Scenario {
     let name = format!(
         "mutex.{}.main{}{}{}",
@@ -124,6 +163,12 @@ pub fn build(quick: bool) -> Vec<Scenario> {
         v.push(mk(w, &[('C', "L"), ('C', "L")], "L", Some(0)).bound(d).deepen(dmax, budget));
         v.push(mk(w, &[('C', "L"), ('T', "L")], "L", Some(0)).bound(d).deepen(dmax, budget));
         v.push(mk(w, &[('C', "LL")], "L", Some(0)).bound(d).deepen(dmax, budget));
+    }
+    for w in [1usize, 2] {
+        for parts in [&[('C', "L")][..], &[('C', "L"), ('C', "L")], &[('C', "L"), ('T', "L")]] {
+            let parts: &'static [(char, &'static str)] = parts;
+            v.push(Scenario::new("C05", "mutex_held", format!("mutex.held.{}.w{}.cancel0", parts_name(parts), w), Arc::new(move |e| run_held(e, w, parts, 0))).tier(quick));
+        }
     }
     if !quick {
         v.push(mk(2, &[('C', "L"), ('C', "L"), ('C', "L")], "L", Some(1)).bound(2).deepen(3, budget));
